@@ -32,7 +32,7 @@ ASSUMPTIONS = [
 HAND_LEMMAS = [
     "by induction on the entry id, with the element invariant link.from_state == dest(entry(pred)) the backtrace from any entry is the label sequence of a grammar path leaving the start state; with find_exit's postcondition (final ==> to_state == final_state) it is a sentence",
 ]
-NOT_COVERED = ["word-arc producers of the history invariant (fsg_search_word_trans / pnode_trans / pnode_exit, lextree construction)", "fsg_search_hyp string building and fsg_search_seg_iter backtrace loops (only their no-exit clause is under contract)", "decoder.c dispatch", "grammar augmentation beyond the bounded add_alt check (silence loops, closure)"]
+NOT_COVERED = ["word-arc producers of the history invariant (fsg_search_word_trans / pnode_trans / pnode_exit, lextree construction)", "fsg_search_hyp string building and fsg_search_seg_iter backtrace loops (only their no-exit clause is under contract)", "decoder.c dispatch", "grammar augmentation beyond the bounded add_alt check (silence loops, closure)", "the items above are NOT under contract; on real decodes they are exercised only by the bounded native run e2e_invariants (FSG acceptance of hypotheses / partial results, ~25 decodes) -- never counted as proved"]
 CLAIM = dict(
     text="Consumer side of 'results are sentences of the grammar': fsg_search_find_exit is proved, with loop invariants and termination, for history tables of any length: the entry it returns has a link, ends no later than the requested frame, carries the reported score and -- for a final result -- enters the grammar's final state; otherwise it returns <= 0. fsg_search_hyp is proved to return NULL and change nothing whenever no admissible exit exists. Producer side: fsg_search_null_prop is proved (two nested loop contracts, termination of the outer loop) to add only entries whose link leaves the state its predecessor entered, with the predecessor's frame and a null label -- the path-connectivity invariant as a precondition of fsg_history_entry_add. The word-arc producers (lextree transitions and exits) are NOT under contract, so for them the invariant is assumed. Grammar augmentation: alternate-pronunciation arcs added by fsg_model_add_alt join the same states as the base-word arc (bounded, 2-state grammar, real hash table).",
     note="assumed: ghost-cell view of the history table and its element invariant (producer side not under contract), err_msg; not covered: hypothesis string building, lextree, decoder dispatch; trusted: CBMC 6.11; end-to-end invariants on ~12 real decodes by a bounded native run (native/e2e_invariants.c), never counted as proved",
